@@ -577,15 +577,26 @@ class SymBytes:
             return bytes(self.base).hex()
         raise Unsupported('hex of symbolic bytes')
 
+    def _degrade(self):
+        """Symbolic bytes reached C code: continue on solver-chosen representative values (path marked degraded)."""
+        if CUR is None:
+            raise Unsupported('symbolic bytes outside an exploration')
+        CUR.degraded += 1
+        CUR.notes.add('degraded: symbolic bytes reached C code')
+        b = bytearray(self.base)
+        for k in sorted(self.ov):
+            b[k] = concretize(SymInt(self.ov[k]), degrade=True)
+        return bytes(b)
+
     def __bytes__(self):
         if not self.ov:
             return bytes(self.base)
-        raise Unsupported('symbolic bytes reached C code (bytes())')
+        return self._degrade()
 
     def __buffer__(self, flags):
         if not self.ov:
             return memoryview(bytes(self.base))
-        raise Unsupported('symbolic bytes reached C code (buffer)')
+        return memoryview(self._degrade())
 
 
 class SymByteArray(SymBytes):
@@ -1024,6 +1035,12 @@ class int_shim(metaclass=_IntMeta):
         return int(*a, **k)
 
     from_bytes = int.from_bytes
+
+
+def chr_shim(x):
+    if isinstance(x, SymInt):
+        return MARK + '<chr>'
+    return chr(x)
 
 
 def len_shim(x):
